@@ -37,6 +37,11 @@ def systems(tier):
     for (a, b), f in itertools.product(pairs, fr):
         out.append(([a, b], [f, 100 - f]))
     out.append((["C", "CCCC", "CCCCCCCCCC"], [30, 30, 40]))
+    # equal member masses (isomers): composition must come out right, also with a 0 % component that is not listed last
+    out.append((["CCCCO", "CCOCC", "CC(C)CO"], [0, 30, 70]))
+    out.append((["CCCCO", "CCOCC", "CC(C)CO"], [30, 0, 70]))
+    out.append((["CCCCO", "CCOCC"], [50, 50]))
+    out.append((["CCCCO", "CCOCC", "CC(C)CO"], [20, 30, 50]))
     out.append((["C", "N{[>][<]CC[>][<]}|gauss(60.0, 0)|F"], [80, 20]))
     if tier == "thorough":
         out.append((["C", "CCCC", "CCCCCCCCCC"], [60, 30, 10]))
@@ -52,6 +57,11 @@ def enumerate_cases(tier, seed):
             yield ("system", {"comps": comps, "fr": fr, "mult": k})
 
 
+class NotOnePickPerMolecule(Exception):
+    """the implementation does not consume exactly one component pick per yielded molecule: the count-vector state space
+    does not describe it; no verdict is given (reported as capped), never an alarm"""
+
+
 def member_mass(text):
     import gbigsmiles
 
@@ -59,71 +69,82 @@ def member_mass(text):
     return float(mg.weight)
 
 
-def eval_case(kind, data):
+def _eval(kind, data):
     import gbigsmiles
     from gbigsmiles.system import System
+    from rdkit import Chem
 
     res = new_result()
     comps, fr, mult = data["comps"], data["fr"], data["mult"]
     n = len(comps)
     masses = [member_mass(c) for c in comps]
+    canon = [Chem.CanonSmiles(gbigsmiles.Molecule(c).generate(rng=ScriptedGenerator([])).smiles) for c in comps]
+    if len(set(canon)) != n:
+        raise HarnessError("components are not distinguishable")
     mmax = max(masses)
     Smass = round((mult + 0.37) * mmax, 3)  # off every multiple of the member masses: no accumulated mass lands on the total
     text = "".join(f"{c}.|{f}%|" for c, f in zip(comps[:-1], fr[:-1])) + f"{comps[-1]}.|{Smass * fr[-1] / 100.0!r}|"
     f = [x / 100.0 for x in fr]
     Smass = float(gbigsmiles.System(text).system_mass)  # the total the library derived (public accessor)
-    # states whose accumulated mass is within float noise of the total are avoided by construction of Smass (8/16/32 x m_max)
 
-    # --- read the pick vector in every reachable state through monotone replay paths
-    pvec = {}
+    # --- the decision point of every ensemble iteration is read at the generator interface: its probability vector, and
+    # --- (by forcing each alternative and looking at the molecule that is yielded) which component each alternative means
+    pvec = {}  # state (observed counts) -> probability vector over alternatives
+    amap = {}  # (state, alternative) -> observed component
     npaths = 0
     nsteps = 0
-    conflict = None
+    conflict = []
 
-    def replay(order):
-        """order: list of component indices to force; returns nothing, records p vectors of the states visited"""
-        nonlocal npaths, nsteps, conflict
+    def replay(alts, tail_alt):
+        """force the alternatives `alts` at the successive decision points, then `tail_alt` until the ensemble stops"""
+        nonlocal npaths, nsteps
         npaths += 1
-
         rng = ScriptedGenerator([])
         counts = [0] * n
         pos = [0]
-        in_pick = [True]  # the first generator request of every iteration of the ensemble loop is the component pick
+        pending = [None]  # (state, alternative) waiting for the molecule it produces
+        in_pick = [True]
         orig_choice = rng.choice
 
         def choice(a, size=None, replace=True, p=None, axis=0, shuffle=True):
-            # component pick: `a` is range(n) and p has n entries; inner generation picks are answered by default 0
             arr = list(a) if not isinstance(a, int) else list(range(a))
-            if in_pick[0]:
-                in_pick[0] = False
-                if p is None or len(arr) != n or arr != list(range(n)):
-                    raise HarnessError(f"first request of an ensemble iteration is not a component pick: {arr}")
-                key = tuple(counts)
-                vec = tuple(round(float(x), 12) for x in p)
-                if key in pvec and pvec[key] != vec:
-                    conflict = (key, pvec[key], vec)
-                pvec[key] = vec
-                k = order[pos[0]] if pos[0] < len(order) else order[-1]
-                pos[0] += 1
-                if vec[k] <= 0:
-                    raise StopIteration
-                counts[k] += 1
-                nsteps_inc()
-                return arr[k]
-            return orig_choice(a, size=size, replace=replace, p=p)
-
-        def nsteps_inc():
+            if not in_pick[0]:
+                if len(arr) > 1 and p is not None and sum(1 for x in p if x > 0) > 1:
+                    raise NotOnePickPerMolecule("a second random decision before the molecule is yielded (members are deterministic by construction)")
+                return orig_choice(a, size=size, replace=replace, p=p)
+            in_pick[0] = False
+            if p is None:
+                raise NotOnePickPerMolecule("component pick without probability vector")
+            key = tuple(counts)
+            vec = tuple(round(float(x), 12) for x in p)
+            if key in pvec and pvec[key] != vec:
+                conflict.append((key, pvec[key], vec))
+            pvec[key] = vec
+            j = alts[pos[0]] if pos[0] < len(alts) else tail_alt
+            pos[0] += 1
+            if j >= len(arr) or vec[j] <= 0:
+                raise StopIteration
+            pending[0] = (key, j)
             nonlocal nsteps
             nsteps += 1
+            return arr[j]
 
         rng.choice = choice
         old = System.generator.fget.__defaults__
         System.generator.fget.__defaults__ = (rng,)
         try:
             sysobj = gbigsmiles.System(text)
-            acc = 0.0
             for mg in sysobj.generator:
-                acc += mg.weight
+                c = canon.index(Chem.CanonSmiles(mg.smiles)) if Chem.CanonSmiles(mg.smiles) in canon else None
+                if c is None:
+                    raise HarnessError(f"yielded molecule {mg.smiles} is not a member")
+                if pending[0] is None:
+                    raise NotOnePickPerMolecule("a molecule was yielded without a preceding decision")
+                if pending[0] in amap and amap[pending[0]] != c:
+                    conflict.append((pending[0], amap[pending[0]], c))
+                amap[pending[0]] = c
+                pending[0] = None
+                counts[c] += 1
                 in_pick[0] = True
                 if sum(counts) > 5000:
                     raise HarnessError("runaway ensemble")
@@ -135,41 +156,48 @@ def eval_case(kind, data):
         finally:
             System.generator.fget.__defaults__ = old
 
-    # cover the lattice: for every vector of counts of the first n-1 components (heaviest-to-lightest order), force those
-    # first and then the last component until the ensemble stops
-    order_idx = sorted(range(n), key=lambda i: -masses[i])
-    light = order_idx[-1]
-    others = order_idx[:-1]
-    maxc = [int(Smass / masses[i]) + 1 for i in others]
-    for combo in itertools.product(*[range(c + 1) for c in maxc]):
-        if sum(c * masses[i] for c, i in zip(combo, others)) >= Smass:
-            # still visit the boundary path once (prefixes are states)
-            pass
-        order = []
-        for c, i in zip(combo, others):
-            order += [i] * c
-        order += [light] * (int(Smass / masses[light]) + 2)
-        replay(order)
-    # a second family with the light component first: same states, different histories
-    for c in range(0, int(Smass / masses[light]) + 1, max(1, int(Smass / masses[light]) // 6)):
-        order = [light] * c + [others[0]] * (int(Smass / masses[others[0]]) + 2)
-        replay(order)
-    if conflict is not None:
-        viol(res, "C14|pick-depends-on-history", f"{text}: state {conflict[0]} exposes pick vectors {conflict[1]} and {conflict[2]} on two different histories", {"text": text})
+    # first look: how many alternatives, what do they mean
+    replay([], 0)
+    k = len(pvec[tuple([0] * n)])
+    for j in range(1, k):
+        replay([j], j)
+    alt_of = {}
+    for j in range(k):
+        c = amap.get((tuple([0] * n), j))
+        if c is not None:
+            alt_of.setdefault(c, j)
+    # cover the lattice of states with monotone paths: every vector of counts of all but one component, then the last one
+    reach = sorted(alt_of, key=lambda c: -masses[c])
+    if reach:
+        light = reach[-1]
+        others = reach[:-1]
+        maxc = [int(Smass / masses[c]) + 1 for c in others]
+        tail = [alt_of[light]]
+        for combo in itertools.product(*[range(c + 1) for c in maxc]):
+            alts = []
+            for cnt, c in zip(combo, others):
+                alts += [alt_of[c]] * cnt
+            replay(alts, tail[0])
+        if others:
+            for cnt in range(0, int(Smass / masses[light]) + 1, max(1, int(Smass / masses[light]) // 6)):
+                replay([alt_of[light]] * cnt, alt_of[others[0]])
+    if conflict:
+        viol(res, "C14|pick-depends-on-history", f"{text}: the same state exposes different decisions on two histories: {conflict[0]}", {"text": text})
 
-    # --- propagate probability mass over the DAG of states
+    # does an alternative always mean the same component?  (observed on every (state, alternative) pair the cover visited)
+    zero = tuple([0] * n)
+    mapping_stable = all(amap.get((zero, j)) == c for (st_, j), c in amap.items())
+    # --- propagate probability mass exactly over the DAG of states
     from collections import defaultdict
 
     prob = defaultdict(float)
-    prob[tuple([0] * n)] = 1.0
+    zero = tuple([0] * n)
+    prob[zero] = 1.0
     EM = [0.0] * n
     states = 0
     transitions = 0
-    missing = 0
-    missing_states = []
-    frontier = [tuple([0] * n)]
-    seen = {tuple([0] * n)}
-    layer = 0
+    frontier = [zero]
+    seen = {zero}
     while frontier:
         nxt = []
         for st in frontier:
@@ -179,41 +207,55 @@ def eval_case(kind, data):
             if total >= Smass:
                 continue
             states += 1
+            need_all = not mapping_stable
+            if st not in pvec or (need_all and any((st, j) not in amap for j, pj in enumerate(pvec[st]) if pj > 0)):
+                # replay a history reaching this state, then try every alternative there
+                alts = []
+                for c in reach:
+                    alts += [alt_of[c]] * st[c]
+                for j in range(k):
+                    replay(alts + [j], alt_of[light])
             if st not in pvec:
-                # replay a history reaching this state (heaviest first), then continue with the lightest member
-                order = []
-                for i in order_idx:
-                    order += [i] * st[i]
-                replay(order + [light] * (int(Smass / masses[light]) + 2))
-            if st not in pvec:
-                missing += 1
-                missing_states.append((st, total))
-                continue
-            p = pvec[st]
-            for i in range(n):
-                if p[i] <= 0:
+                raise HarnessError(f"state {st} cannot be reached by replay")
+            for j, pj in enumerate(pvec[st]):
+                if pj <= 0:
                     continue
+                c = amap.get((st, j))
+                if c is None and mapping_stable:
+                    c = amap.get((zero, j))  # the meaning of an alternative did not vary over the hundreds of observed (state, alternative) pairs
+                if c is None:
+                    raise HarnessError(f"alternative {j} in state {st} was never observed")
                 transitions += 1
-                st2 = tuple(c + (1 if j == i else 0) for j, c in enumerate(st))
-                prob[st2] += prob[st] * p[i]
-                EM[i] += prob[st] * p[i] * masses[i]
+                st2 = tuple(x + (1 if i == c else 0) for i, x in enumerate(st))
+                prob[st2] += prob[st] * pj
+                EM[c] += prob[st] * pj * masses[c]
                 if st2 not in seen:
                     seen.add(st2)
                     nxt.append(st2)
         frontier = nxt
-        layer += 1
-        # all states of a layer have the same number of molecules, so probabilities are final when the layer is expanded
-    if missing:
-        raise HarnessError(f"{missing} reachable states were not visited by the replay paths: {missing_states[:5]} S={Smass} masses={masses}")
     Etot = sum(EM)
-    bound = n * mmax / Smass
     shares = [e / Etot for e in EM]
-    worst = max(abs(s - fi) for s, fi in zip(shares, f))
-    state_indep = len(set(pvec.values())) == 1
-    p0 = pvec[tuple([0] * n)]
+    state_indep = mapping_stable and len({v for s_, v in pvec.items() if sum(c * m for c, m in zip(s_, masses)) < Smass}) == 1
+    p0 = pvec[zero]
+    # per-component decision probability in the initial state
+    pc = [0.0] * n
+    for j, pj in enumerate(p0):
+        if pj > 0 and amap.get((zero, j)) is not None:
+            pc[amap[(zero, j)]] += pj
+    if state_indep:
+        # constant decision law: the mass shares converge to p_i m_i / sum_j p_j m_j (Wald's identity), exactly
+        lim = [pc[i] * masses[i] for i in range(n)]
+        tot = sum(lim)
+        lim = [x / tot for x in lim]
+        worst = max(abs(a - b) for a, b in zip(lim, f))
+        bound = 1e-9
+        shown = lim
+    else:
+        worst = max(abs(s_ - fi) for s_, fi in zip(shares, f))
+        bound = n * mmax / Smass
+        shown = shares
     if worst > bound:
-        # diagnose the law for the finding key
-        if state_indep and all(abs(a - b) < 1e-9 for a, b in zip(p0, f)):
+        if state_indep and all(abs(a - b) < 1e-9 for a, b in zip(pc, f)) and max(masses) - min(masses) > 1e-6:
             law = "pick-probability-equals-declared-mass-fraction"
         elif state_indep:
             law = "other-constant-pick-probability"
@@ -222,7 +264,8 @@ def eval_case(kind, data):
         viol(
             res,
             f"C14|mass-share-deviates|{law}",
-            f"{text}: member masses {[round(m, 2) for m in masses]}, declared fractions {f}; exact expected mass shares {[round(s, 4) for s in shares]} (deviation {worst:.3f} > bound {bound:.3f} at system mass {Smass}); pick vector {p0}",
+            f"{text}: member masses {[round(m, 2) for m in masses]}, declared fractions {f}; "
+            + (f"constant pick law {[round(x, 4) for x in pc]} per component, so the mass shares converge to {[round(x, 4) for x in shown]}" if state_indep else f"exact expected mass shares {[round(x, 4) for x in shown]} at system mass {Smass} (bound {bound:.3f})"),
             {"text": text, "mult": mult},
         )
     res["states"] = states
@@ -230,7 +273,19 @@ def eval_case(kind, data):
     res["traces"] = npaths
     res["evals"] = npaths
     res["nontrivial"] = [text, mult]
-    res["outcomes"] = [f"{'const' if state_indep else 'dep'}:{round(worst, 2)}"]
-    res["sample"] = {"system": text, "member_masses": masses, "declared": f, "expected_shares": [round(s, 5) for s in shares], "bound": round(bound, 4), "states": states, "replay_paths": npaths, "forced_picks": nsteps}
+    res["outcomes"] = [f"{'const' if state_indep else 'dep'}:{round(worst, 3)}"]
+    res["sample"] = {"system": text, "member_masses": masses, "declared": f, "expected_shares_at_this_total": [round(x, 5) for x in shares], "limit_shares": [round(x, 5) for x in shown], "states": states, "replay_paths": npaths, "forced_picks": nsteps}
     res["extra"] = {"replay_paths": npaths, "forced_picks": nsteps}
     return res
+
+
+def eval_case(kind, data):
+    try:
+        return _eval(kind, data)
+    except NotOnePickPerMolecule as e:
+        res = new_result()
+        res["capped"] = True
+        res["nontrivial"] = None
+        res["sample"] = {"system": data["comps"], "no_verdict": str(e)}
+        res["extra"] = {"systems_without_verdict": 1}
+        return res
